@@ -268,6 +268,58 @@ func Signed(args []string) {
 			}
 		}
 	}
+	// ---- a manifest that already carries a signature is a manifest too: signing it again (same or another key) replaces
+	// the old signature, and the result verifies and names the new key
+	resign := func(src []byte, kn, digest string, n int) ([]byte, error) {
+		in := filepath.Join(dir, fmt.Sprintf("rs%d.manifest", n))
+		os.WriteFile(in, src, 0600)
+		defer os.Remove(in)
+		_, err := pipex.Sign(pipex.SignRequest{Cfg: w.Cfg, Token: w.Token, KeyName: kn, SigType: pipelinex.TypeByName("manifest").SigType, In: in, Out: in, Digest: digest})
+		out, _ := os.ReadFile(in)
+		return out, err
+	}
+	for _, k1 := range []string{"rsa2048", "p256"} {
+		for _, k2 := range []string{"rsa2048", "p256"} {
+			for _, digest := range []string{"sha1", "sha256"} {
+				first, path, err := sign("manifest", k1, digest, 2)
+				os.Remove(path)
+				if err != nil {
+					continue
+				}
+				second, err := resign(first, k2, digest, 3)
+				key := map[string]string{"engine": "xml-signed", "type": "manifest", "kind": "resigned-manifest-rejected"}
+				rep := map[string]any{"type": "manifest", "first": k1, "second": k2, "digest": digest}
+				r.Eval(true)
+				if err != nil {
+					r.Fail(key, rep, "manifest signed with %s cannot be signed again with %s: %v", k1, k2, err)
+					continue
+				}
+				leaf := w.Keys[k2].Leaf.Cert
+				// (a signed ClickOnce manifest holds the outer signature and the licence's inner one)
+				if n, n1 := strings.Count(string(second), "<Signature "), strings.Count(string(first), "<Signature "); n != n1 {
+					r.Fail(key, rep, "manifest signed with %s, then with %s (%s): the result holds %d Signature elements, a manifest signed once holds %d", k1, k2, digest, n, n1)
+					continue
+				}
+				if _, verr := appmanifest.Verify(second); verr != nil {
+					r.Fail(key, rep, "manifest signed with %s, then with %s (%s): relic's verifier rejects the result: %v", k1, k2, digest, verr)
+					continue
+				}
+				if digest == "sha1" {
+					if ans := j.validate(second, 0, spkiOf(leaf)); !strings.HasPrefix(ans, "VALID") {
+						r.Fail(map[string]string{"engine": "xml-signed", "kind": "jdk-rejects-relic-output", "type": "manifest"}, rep,
+							"manifest signed with %s, then with %s: the JDK XML-DSig validator does not accept the second signature: %s", k1, k2, ans)
+						continue
+					}
+					r.Count("jdk_judged", 1)
+				}
+				if !strings.Contains(string(second), "<as:X509SubjectName>CN="+leaf.Subject.CommonName+"</as:X509SubjectName>") {
+					r.Fail(map[string]string{"engine": "xml-signed", "kind": "publisher", "type": "manifest"}, rep,
+						"manifest signed with %s, then with %s: the publisher in the licence is not the second signer (CN=%s)", k1, k2, leaf.Subject.CommonName)
+				}
+				r.Count("manifests_resigned", 1)
+			}
+		}
+	}
 	// ---- rewrites of a VSIX package signature
 	for _, kn := range []string{"rsa2048", "p256"} {
 		signedBytes, path, err := sign("vsix", kn, "sha256", 1)
